@@ -149,3 +149,20 @@ Fixpoint unwords (ws : list str) : str :=
   end.
 
 End Words.
+
+(* a recogniser for the plainest make expressions, ${NAME} with NAME over
+   [A-Za-z0-9_] -- except the one expression that ShToken skips *)
+Definition is_name_byte (c : N) : bool := is_alnum c || (c =? 95).
+Definition ulimit_name : str := [95; 85; 76; 73; 77; 73; 84; 95; 67; 77; 68].
+Definition mkvar_rx (s : str) : option str :=
+  match s with
+  | a :: b :: t =>
+    if (a =? 36) && (b =? 123) then
+      match span is_name_byte t with
+      | (c :: name, d :: r) =>
+        if (d =? 125) && negb (str_eqb (c :: name) ulimit_name) then Some r else None
+      | _ => None
+      end
+    else None
+  | _ => None
+  end.
